@@ -423,7 +423,8 @@ theorem C15_fact_notifications_bypass : Mcp.Gen.mwNotificationsBypass = true := 
 theorem C15_fact_internal_error_code :
     Mcp.Gen.mwInternalCodeStreamable = -32603 ∧ Mcp.Gen.mwInternalCodeSSE = -32603 := by decide
 
-/-- **The code as it is today** is in the compliant region: a request against a server built from `opts` on
+/-- **The code as it is today** is in the compliant region (together with `C15_fact_first_registered_outermost`:
+    `handleRequest` builds the chain once per request around the dispatch function and runs it once): a request against a server built from `opts` on
     either transport yields exactly the onion run over the concatenated options, answered with −32603 for a
     Go error; a notification yields nothing. All theorems above about `run` therefore speak about `serve codeFacts`. -/
 theorem C15_code_serve (tr : Transport) (opts : List (List Stage)) (h : Req → Out) (r : Req) :
